@@ -270,6 +270,8 @@ type c03F struct {
 	Q      *c03F
 	M      map[string]*c03F
 	A      [1]*c03F
+	// exported but not managed by dials: still part of the graph that is copied
+	Skip *c03F `dials:"-"`
 }
 
 type c03cfgF struct {
@@ -298,13 +300,16 @@ func c03famF(n int) {
 			nd.M = shared
 		}
 		nd.A[0] = get("n" + strconv.Itoa(i) + "A0")
+		if i == 0 {
+			nd.Skip = get("n0Skip")
+		}
 	}
 	def := &c03cfgF{R0: nodes[0], secret: 42, R1: get("R1"), Shared: shared}
 	c03check("family F (references after unexported fields)", def, func(c *c03cfgF) []reflect.Value {
 		out := []reflect.Value{reflect.ValueOf(c.R0), reflect.ValueOf(c.R1), reflect.ValueOf(c.Shared), reflect.ValueOf(c.Shared["x"])}
 		for _, r := range []*c03F{c.R0, c.R1} {
 			if r != nil {
-				out = append(out, reflect.ValueOf(r.P), reflect.ValueOf(r.Q), reflect.ValueOf(r.M), reflect.ValueOf(r.A[0]))
+				out = append(out, reflect.ValueOf(r.P), reflect.ValueOf(r.Q), reflect.ValueOf(r.M), reflect.ValueOf(r.A[0]), reflect.ValueOf(r.Skip))
 			}
 		}
 		return out
@@ -322,6 +327,7 @@ type c03G struct {
 	Grid [1][1]*c03G
 	Rows [][1]*c03G
 	M    map[string][1]*c03G
+	PA   *[1]*c03G
 }
 
 type c03cfgG struct{ R0, R1 *c03G }
@@ -340,6 +346,9 @@ func c03famG(n int, full bool) {
 	for i, nd := range nodes {
 		nd.P = get("n" + strconv.Itoa(i) + "P")
 		nd.Grid[0][0] = get("n" + strconv.Itoa(i) + "G")
+		if i == 0 && zzverif.Choose("n0PA", 2) == 1 {
+			nd.PA = &[1]*c03G{get("n0PA0")}
+		}
 		if !full && i > 0 {
 			continue
 		}
@@ -356,6 +365,9 @@ func c03famG(n int, full bool) {
 		for _, r := range []*c03G{c.R0, c.R1} {
 			if r != nil {
 				out = append(out, reflect.ValueOf(r.P), reflect.ValueOf(r.Grid[0][0]))
+				if r.PA != nil {
+					out = append(out, reflect.ValueOf(r.PA[0]))
+				}
 				if len(r.Rows) > 0 {
 					out = append(out, reflect.ValueOf(r.Rows[0][0]))
 				}
